@@ -14,6 +14,9 @@ def hx(x, prec=64):
 
 
 def unhx(s):
+    if s[0] == 'q':
+        n, _, d = s[1:].partition('/')
+        return Fraction(int(n), int(d or 1))
     if len(s) == 16:
         return struct.unpack('>d', struct.pack('>Q', int(s, 16)))[0]
     return struct.unpack('>f', struct.pack('>I', int(s, 16)))[0]
@@ -124,9 +127,13 @@ def strip_closing(r):
     return r
 
 
+def _norm(v):
+    return v + 0.0 if isinstance(v, float) else v
+
+
 def canon_ring(r):
-    """rotate to the least vertex (closing point removed); direction kept"""
-    r = strip_closing([(x + 0.0, y + 0.0) for (x, y) in r])
+    """rotate to the least vertex (closing point removed); direction kept; -0.0 -> 0.0"""
+    r = strip_closing([(_norm(x), _norm(y)) for (x, y) in r])
     if not r:
         return ()
     k = min(range(len(r)), key=lambda i: (r[i], r[(i + 1) % len(r)]))
@@ -141,6 +148,10 @@ def canon_polygon(p):
 
 def canon_mp(mp):
     return tuple(sorted(canon_polygon(p) for p in mp))
+
+
+def mp_to_fractions(mp):
+    return [[[(Fraction(x), Fraction(y)) for (x, y) in r] for r in p] for p in mp]
 
 
 def frac(x):
